@@ -50,7 +50,9 @@ def pushFork (c : String) (ix : Idx) : RExp → RExp
       | some x => x
       | none => .fork c ix (.split c' m e)
     else .split c' m (pushFork c ix e)
-  | .merge c' m e => .merge c' m (pushFork c ix e)
+  -- a merge of run-time size below the fork: its elements are enumerated in that fork
+  -- (`forkedMergeSource`, `mergeMatchFork`: the known index bound in the source / the fork node)
+  | .merge c' m e => .fork c ix (mkMerge c' m (pushFork c ix e))
   | .disabled d v => .disabled (pushFork c ix d) (pushFork c ix v)
   | .fork c' ix' e => if c' == c then .fork c' ix' e else .fork c' ix' (pushFork c ix e)
 def pushForkList (c : String) (ix : Idx) : List RExp → List RExp
@@ -119,14 +121,58 @@ def hasForkRFields : List (String × RExp) → Bool
   | (_, e) :: es => hasForkR e || hasForkRFields es
 end
 
+/-- the static type of a reference (`self.p.path` / `CALL.path`) in the scope of a pipeline -/
+def refTyOf (st : StructTable) (self sib : RBMap) : Exp → Ty
+  | .self p path => pathTy st (((self.lookup p).map (·.ty)).getD badTy) path
+  | .ref c path => pathTy st (((sib.lookup c).map (·.ty)).getD badTy) path
+  | _ => badTy
+
+/-- the mode of a split source (`MapCallSource.CallMode`): of a literal its kind, otherwise the
+static type of the reference decides (array / typed map) -/
+def splitIsMap (st : StructTable) (self sib : RBMap) (e : Exp) : Bool :=
+  match resolveRefs self sib e with
+  | .arr _ => false
+  | .map _ => true
+  | .struct _ => false
+  | .lit _ => false
+  | _ => (refTyOf st self sib e).arrDim == 0 && (refTyOf st self sib e).mapDim != 0
+
+/-- a split source whose length / key set is only known at run time (`!KnownLength()`): a
+reference of collection type that did not resolve to a literal -/
+def isRuntimeSrc (st : StructTable) (self sib : RBMap) (e : Exp) : Bool :=
+  (match resolveRefs self sib e with
+   | .arr _ => false
+   | .map _ => false
+   | .struct _ => false
+   | .lit _ => false
+   | _ => true) &&
+  ((refTyOf st self sib e).arrDim != 0 || (refTyOf st self sib e).mapDim != 0)
+
+/-- `some m`: every split source of the map call has run-time size, all in mode `m` -/
+def runtimeMode (st : StructTable) (self sib : RBMap) (ins : List Param) (c : Call) : Option Bool :=
+  match splitParam ins c with
+  | none => none
+  | some p0 =>
+    match c.binds.find? (fun b => b.param == p0.name) with
+    | none => none
+    | some b0 =>
+      if c.disabled.isNone &&
+         (c.binds.all fun b => !b.split || ins.any fun p => p.name == b.param) &&
+         ins.all (fun p =>
+          match c.binds.find? (fun b => b.param == p.name) with
+          | some b => !b.split ||
+              (isRuntimeSrc st self sib b.exp && splitIsMap st self sib b.exp == splitIsMap st self sib b0.exp)
+          | none => true)
+      then some (splitIsMap st self sib b0.exp) else none
+
 def resolveBindsT (st : StructTable) (self sib : RBMap) (ins : List Param) (c : Call) : RBMap :=
   ins.map fun p =>
     (p.name,
      match c.binds.find? (fun b => b.param == p.name) with
      | some b =>
        if b.split then
-         ⟨.split c.id (isMapLit (resolveRefs self sib b.exp))
-            (filterT st (liftSplitTy (isMapLit (resolveRefs self sib b.exp)) p.ty) (resolveRefs self sib b.exp)), p.ty⟩
+         ⟨.split c.id (splitIsMap st self sib b.exp)
+            (filterT st (liftSplitTy (splitIsMap st self sib b.exp) p.ty) (resolveRefs self sib b.exp)), p.ty⟩
        else ⟨filterT st p.ty (resolveRefs self sib b.exp), p.ty⟩
      | none => ⟨.lit .null, p.ty⟩)
 
@@ -137,7 +183,7 @@ def callIndicesT (st : StructTable) (self sib : RBMap) (ins : List Param) (c : C
   | some p =>
     match c.binds.find? (fun b => b.param == p.name) with
     | some b =>
-      staticIndices (filterT st (liftSplitTy (isMapLit (resolveRefs self sib b.exp)) p.ty)
+      staticIndices (filterT st (liftSplitTy (splitIsMap st self sib b.exp) p.ty)
         (resolveRefs self sib b.exp))
     | none => none
 
@@ -151,6 +197,11 @@ inductive STree where
   /-- everything below a call with a run-time `disabled` control `d` (nothing below runs in the
   forks where `d` is true) -/
   | guard (d : RExp) (children : List STree)
+  /-- everything below mapped call `call` whose size is only known at run time (`isMap`: typed-map
+  mode); `path`, `cins`: the call's fully qualified path and resolved inputs (`CallGraphStage.Inputs`,
+  which `findMergeForkNode` searches); `ok`: the callee's outputs contain neither the call's own split
+  (the cancelling shape of `mkMerge`) nor a merge over the call -/
+  | subR (call : String) (isMap : Bool) (path : List String) (cins : RBMap) (ok : Bool) (children : List STree)
 deriving Inhabited
 
 def splitsStaticT (st : StructTable) (self sib : RBMap) (ins : List Param) (c : Call)
@@ -159,7 +210,7 @@ def splitsStaticT (st : StructTable) (self sib : RBMap) (ins : List Param) (c : 
     match c.binds.find? (fun b => b.param == p.name) with
     | some b =>
       !b.split ||
-        (staticIndices (filterT st (liftSplitTy (isMapLit (resolveRefs self sib b.exp)) p.ty)
+        (staticIndices (filterT st (liftSplitTy (splitIsMap st self sib b.exp) p.ty)
           (resolveRefs self sib b.exp)) == some ixs &&
          -- a map call over the merged output of another map call iterates in lockstep with it
          -- (`dropLockstepRoots`): not covered
@@ -178,7 +229,14 @@ def staticCallsT (st : StructTable) (insOf : String → List Param)
       let ixs := ci.getD (false, [])
       -- a `disabled` modifier on a map call is not covered
       let ok := ci.isSome && !ixs.2.isEmpty && splitsStaticT st self sib (insOf c.callee) c ixs &&
-        c.disabled.isNone
+        c.disabled.isNone && noMergeOf c.id r.1.exp
+      if ci.isNone && (runtimeMode st self sib (insOf c.callee) c).isSome then
+        -- run-time size: the outputs are a `merge` over the call (resolve_pipeline.go / resolve_stage.go)
+        let m := (runtimeMode st self sib (insOf c.callee) c).getD false
+        staticCallsT st insOf node path self cs
+          (sib ++ [(c.id, ⟨.merge c.id m r.1.exp, if m then ⟨c.callee, 1, 0⟩ else ⟨c.callee, 0, 1⟩⟩)])
+          (acc ++ [.subR c.id m (path ++ [c.id]) cins (noSplitOf c.id r.1.exp && noMergeOf c.id r.1.exp) r.2])
+      else
       staticCallsT st insOf node path self cs (sib ++ [(c.id, unrolledOutputsT c ixs r.1.exp)])
         (acc ++ [.sub c.id ixs.1 ixs.2 ok r.2])
     else
@@ -223,6 +281,7 @@ def flattenD (dims : List (String × List Idx)) (dis : List RExp) : STree → Li
   | .node n => [{ n with forks := dims, disable := dis }]
   | .sub c _ ixs _ ch => flattenDList (dims ++ [(c, ixs)]) dis ch
   | .guard d ch => flattenDList dims (dis ++ [d]) ch
+  | .subR c _ _ _ _ ch => flattenDList (dims ++ [(c, [])]) dis ch
 def flattenDList (dims : List (String × List Idx)) (dis : List RExp) : List STree → List SNode
   | [] => []
   | t :: ts => flattenD dims dis t ++ flattenDList dims dis ts
@@ -234,6 +293,7 @@ def flattenT (dims : List (String × List Idx)) : STree → List SNode
   | .node n => [{ n with forks := dims }]
   | .sub c _ ixs _ ch => flattenTList (dims ++ [(c, ixs)]) ch
   | .guard _ ch => flattenTList dims ch
+  | .subR c _ _ _ _ ch => flattenTList (dims ++ [(c, [])]) ch
 def flattenTList (dims : List (String × List Idx)) : List STree → List SNode
   | [] => []
   | t :: ts => flattenT dims t ++ flattenTList dims ts
@@ -246,6 +306,7 @@ def treeOk (above : List String) : STree → Bool
   | .node _ => true
   | .sub c _ _ ok ch => ok && !above.contains c && treeOkList (above ++ [c]) ch
   | .guard _ ch => treeOkList above ch
+  | .subR _ _ _ _ _ _ => false
 def treeOkList (above : List String) : List STree → Bool
   | [] => true
   | t :: ts => treeOk above t && treeOkList above ts
@@ -259,6 +320,13 @@ def instsT (st : StructTable) (nf : Nat) (ρ : Store) : List (String × Idx) →
     ixs.flatMap fun ix => instsTList st nf ρ (forks ++ [(c, ix)]) (fset f c ix) ch
   | forks, f, .guard d ch =>
     if isTrue (evalRT st nf ρ f ⟨"bool", 0, 0⟩ d) then [] else instsTList st nf ρ forks f ch
+  | forks, f, .subR c _ _ _ _ ch =>
+    -- one fork per recorded index / key of the call in this fork of the enclosing calls; over an
+    -- empty / null collection nothing that forks over the call runs, the nodes below that do not
+    -- depend on it run once: den's optional instances ("no element")
+    if (ρ.idx c f).isEmpty then
+      (instsTList st nf ρ (forks ++ [(c, .none)]) (fset f c .none) ch).map fun i => { i with optional := true }
+    else (ρ.idx c f).flatMap fun ix => instsTList st nf ρ (forks ++ [(c, ix)]) (fset f c ix) ch
 def instsTList (st : StructTable) (nf : Nat) (ρ : Store) : List (String × Idx) → ForkAssign → List STree → List Inst
   | _, _, [] => []
   | forks, f, t :: ts => instsT st nf ρ forks f t ++ instsTList st nf ρ forks f ts
@@ -270,6 +338,7 @@ def noGuard : STree → Bool
   | .node _ => true
   | .sub _ _ _ _ ch => noGuardList ch
   | .guard _ _ => false
+  | .subR _ _ _ _ _ ch => noGuardList ch
 def noGuardList : List STree → Bool
   | [] => true
   | t :: ts => noGuard t && noGuardList ts
@@ -279,6 +348,185 @@ end
 def twoPhaseT (P : Program) (nm : List String → String) (ρ : Store) : J × List Inst :=
   ((evalRT P.table P.nfuel ρ [] ⟨P.top.callee, 0, 0⟩ (staticProgramT P nm).1.exp),
    instsTList P.table P.nfuel ρ [] [] (staticProgramT P nm).2)
+
+mutual
+/-- like `treeOk`, with map calls of run-time size: no call id repeats along a nesting chain, and
+the source of a run-time sized call is not an element of a split over a STATICALLY sized enclosing
+call (there the compiler knows the size per fork of the enclosing call and unrolls the merge per
+fork: `sourceForFork` — not modelled) -/
+def treeOkR (above aboveStatic : List String) : STree → Bool
+  | .node _ => true
+  | .sub c _ _ ok ch => ok && !above.contains c && treeOkRList (above ++ [c]) (aboveStatic ++ [c]) ch
+  | .guard _ ch => treeOkRList above aboveStatic ch
+  | .subR c _ _ cins _ ch =>
+    !above.contains c && (cins.all fun kv => aboveStatic.all fun s => noSplitOf s kv.2.exp) &&
+      treeOkRList (above ++ [c]) aboveStatic ch
+def treeOkRList (above aboveStatic : List String) : List STree → Bool
+  | [] => true
+  | t :: ts => treeOkR above aboveStatic t && treeOkRList above aboveStatic ts
+end
+
+mutual
+/-- the run-time sized map calls: id ↦ (fully qualified path, inputs, enclosing controls) -/
+def subRInfo (dis : List RExp) : STree → List (String × List String × RBMap × List RExp)
+  | .node _ => []
+  | .sub _ _ _ _ ch => subRInfoList dis ch
+  | .guard d ch => subRInfoList (dis ++ [d]) ch
+  | .subR c _ path cins _ ch => (c, path, cins, dis) :: subRInfoList dis ch
+def subRInfoList (dis : List RExp) : List STree → List (String × List String × RBMap × List RExp)
+  | [] => []
+  | t :: ts => subRInfo dis t ++ subRInfoList dis ts
+end
+
+/-! ### the node whose forks enumerate the elements of a run-time merge (`findMergeForkNode`) -/
+
+/-- the entry with the least key (`sort.Strings(keys)` + first hit) -/
+def leastKey : List (String × String) → Option String
+  | [] => none
+  | (k, v) :: xs =>
+    match xs.foldl (fun (acc : String × String) x => if x.1 < acc.1 then x else acc) (k, v) with
+    | (_, r) => some r
+
+mutual
+/-- `findMergeForkExpNode(v, call)`: the first reference, in the compiler's traversal order, to a
+node that forks over `call` (`table`: node ↦ its fork roots) -/
+def forkNodeExp (table : List (String × List String)) (c : String) : RExp → Option String
+  | .lit _ => none
+  | .arr xs => forkNodeList table c xs
+  | .map kvs => leastKey (forkNodeFields table c kvs)
+  | .struct kvs => leastKey (forkNodeFields table c kvs)
+  | .ref n _ _ => if ((table.lookup n).getD []).contains c then some n else none
+  | .split c' _ (.merge c2 _ e2) =>
+    match forkNodeExp table c e2 with
+    | some r => some r
+    | none => if c' == c then forkNodeExp table c2 e2 else none
+  | .split _ _ e => forkNodeExp table c e
+  | .merge _ _ e => forkNodeExp table c e
+  | .disabled d v =>
+    match forkNodeExp table c v with
+    | some r => some r
+    | none => forkNodeExp table c d
+  | .fork _ _ e => forkNodeExp table c e
+def forkNodeList (table : List (String × List String)) (c : String) : List RExp → Option String
+  | [] => none
+  | e :: es =>
+    match forkNodeExp table c e with
+    | some r => some r
+    | none => forkNodeList table c es
+def forkNodeFields (table : List (String × List String)) (c : String) :
+    List (String × RExp) → List (String × String)
+  | [] => []
+  | (k, e) :: es =>
+    match forkNodeExp table c e with
+    | some r => (k, r) :: forkNodeFields table c es
+    | none => forkNodeFields table c es
+end
+
+/-- `findMergeForkNode(v, call)` followed by the check of its callers (`fn.Id == call.Fqid` → nil):
+the value, then the call's controls, then the call's inputs in the order of their names -/
+def mergeForkNode (table : List (String × List String)) (nm : List String → String)
+    (info : List (String × List String × RBMap × List RExp)) (c : String) (v : RExp) : Option String :=
+  match info.lookup c with
+  | none => none
+  | some (path, cins, dis) =>
+    let r := match forkNodeExp table c v with
+      | some r => some r
+      | none =>
+        match dis.findSome? (forkNodeExp table c) with
+        | some r => some r
+        | none => leastKey (forkNodeFields table c (cins.map fun kv => (kv.1, kv.2.exp)))
+    if r == some (nm path) then none else r
+
+/-! ### the store of a run with map calls of run-time size -/
+
+/-- the collection a run-time sized map call iterates over: its first split input -/
+def splitSourceOf (info : List (String × List String × RBMap × List RExp)) (c : String) : Option (Ty × RExp) :=
+  match info.lookup c with
+  | none => none
+  | some (_, cins, _) =>
+    cins.findSome? fun kv =>
+      match kv.2.exp with
+      | .split c' m e => if c' == c then some (liftSplitTy m kv.2.ty, e) else none
+      | _ => none
+
+/-- the store of a run: the recorded outs (`storeOfNodes`), and for every map call of run-time
+size the indices / keys of the collection it was split over, in the fork of the enclosing calls
+(`fuel`: nesting depth of run-time merges inside split sources) -/
+def storeOfNodesR (st : StructTable) (nf : Nat) (nm : List String → String) (nodes : List SNode)
+    (info : List (String × List String × RBMap × List RExp)) (O : Oracle) : Nat → Store
+  | 0 => storeOfNodes nm nodes O
+  | n+1 =>
+    { outs := (storeOfNodes nm nodes O).outs
+      idx := fun c f =>
+        match splitSourceOf info c with
+        | some (t, src) => indicesOf (evalRT st nf (storeOfNodesR st nf nm nodes info O n) f t src)
+        | none => [] }
+
+/-! ### the fragment of the refinement with map calls of run-time size -/
+
+mutual
+/-- `treeOk` + ARRAY-mode map calls of run-time size whose callee's outputs contain neither the
+call's own split nor a merge over it -/
+def treeOkP (above : List String) : STree → Bool
+  | .node _ => true
+  | .sub c _ _ ok ch => ok && !above.contains c && treeOkPList (above ++ [c]) ch
+  | .guard _ ch => treeOkPList above ch
+  | .subR c m _ _ ok ch => ok && !m && !above.contains c && treeOkPList (above ++ [c]) ch
+def treeOkPList (above : List String) : List STree → Bool
+  | [] => true
+  | t :: ts => treeOkP above t && treeOkPList above ts
+end
+
+mutual
+/-- the recorded index sets of the store are those of the collections the calls were split over,
+and not empty — checked along the forks that exist (the enumeration of `instsT`) -/
+def idxOkT (st : StructTable) (nf : Nat) (ρ : Store) : ForkAssign → STree → Bool
+  | _, .node _ => true
+  | f, .sub c _ ixs _ ch => ixs.all fun ix => idxOkTList st nf ρ (fset f c ix) ch
+  | f, .guard _ ch => idxOkTList st nf ρ f ch
+  | f, .subR c _ _ cins _ ch =>
+    !(ρ.idx c f).isEmpty &&
+    (cins.all fun kv =>
+      match kv.2.exp with
+      | .split c' _ src =>
+        c' != c || decide (indicesOf (evalRT st nf ρ f (liftSplitTy false kv.2.ty) src) = ρ.idx c f)
+      | _ => true) &&
+    (ρ.idx c f).all fun ix => idxOkTList st nf ρ (fset f c ix) ch
+def idxOkTList (st : StructTable) (nf : Nat) (ρ : Store) : ForkAssign → List STree → Bool
+  | _, [] => true
+  | f, t :: ts => idxOkT st nf ρ f t && idxOkTList st nf ρ f ts
+end
+
+mutual
+/-- the map calls of run-time size: id ↦ (path, the mapped calls around it, outermost first) -/
+def subROcc (dims : List String) : STree → List (String × List String × List String)
+  | .node _ => []
+  | .sub c _ _ _ ch => subROccList (dims ++ [c]) ch
+  | .guard _ ch => subROccList dims ch
+  | .subR c _ path _ _ ch => (c, path, dims) :: subROccList (dims ++ [c]) ch
+def subROccList (dims : List String) : List STree → List (String × List String × List String)
+  | [] => []
+  | t :: ts => subROcc dims t ++ subROccList dims ts
+end
+
+/-- the index sets a run recorded: per instance of a map call (its path and the forks of the
+mapped calls around it) the indices / keys it forked over (`ForkId`s of the nodes below it) -/
+abbrev IdxRec := InstKey → List Idx
+
+/-- the store of a run: the recorded outs and the recorded index sets -/
+def storeOfRun (nm : List String → String) (nodes : List SNode)
+    (occ : List (String × List String × List String)) (O : Oracle) (I : IdxRec) : Store :=
+  { outs := (storeOfNodes nm nodes O).outs
+    idx := fun c f =>
+      match occ.lookup c with
+      | some (path, dims) => I ⟨path, dims.map fun d => (d, (f.lookup d).getD .none)⟩
+      | none => [] }
+
+/-- a stage instance of den as the code delivers it: "no value" (`dnull`) rendered as JSON null -/
+def eraseInst (i : Inst) : Inst := { i with args := J.erase i.args }
+
+/-- den modulo the rendering of `dnull` as null -/
+def eraseRun (d : J × List Inst) : J × List Inst := (J.erase d.1, d.2.map eraseInst)
 
 /-! ## the fork roots a node depends on (`resolveForks`), for the comparison with the compiler -/
 
